@@ -28,6 +28,12 @@ CumVerdict(ev) ==
     \cup (IF \A k1, k2 \in Keys(ev.cum) : LeqAll(k1, k2) => CountIn(ev.cum, k1) <= CountIn(ev.cum, k2) THEN {} ELSE {V("P_CumulativeMonotone", "None", key, ev.cum)})
     \cup (IF \A k \in Keys(ev.cum) : (\A k2 \in ks : LeqAll(k2, k)) => CountIn(ev.cum, k) = Total(ev.hist) THEN {} ELSE {V("P_CumulativeTotal", "None", key, ev.cum)})
 
+\* cumulative histogram of non-integral bins (values scaled by 2^20 and rounded: one unit of slack per contributing bin)
+CumNormVerdict(ev) ==
+    LET ks == Keys(ev.norm)  n == Len(ev.norm) IN
+    IF Keys(ev.cum) = ks /\ \A k \in ks : Abs(CountIn(ev.cum, k) - P_Cumulative(ev.norm, k)) <= n + 1 THEN {}
+    ELSE {V("P_Cumulative", "None", ev.types \o ":normalised", [norm |-> ev.norm, cum |-> ev.cum])}
+
 NormVerdict(ev) ==
     LET tot == Total(ev.hist) one == 1048576
         Ok(k) == Abs(CountIn(ev.norm, k) * tot - CountIn(ev.hist, k) * one) <= tot
@@ -55,6 +61,7 @@ Verdict(ev) ==
     CASE ev.e = "Fill"     -> FillVerdict(ev)
       [] ev.e = "Cum"      -> CumVerdict(ev)
       [] ev.e = "Norm"     -> NormVerdict(ev)
+      [] ev.e = "CumNorm"  -> CumNormVerdict(ev)
       [] ev.e = "SubAxes"  -> SubAxesVerdict(ev)
       [] ev.e = "SubRange" -> SubRangeVerdict(ev)
       [] ev.e = "Std"      -> StdVerdict(ev)
